@@ -17,7 +17,21 @@ def dec_scalar(v):
         return float(v)
     if isinstance(v, dict) and 's' in v:
         return v['s']           # a genuine string scalar
+    if isinstance(v, dict) and 'tl' in v:
+        return ('t', list(v['tl']))        # hashable? no - but a tuple: immutable outside, mutable inside
+    if isinstance(v, dict) and 'obj' in v:
+        return Holder(list(v['obj']))      # an instance of an ordinary user class: hashable (by identity) and mutable
     return v
+
+
+class Holder:
+    """A user-defined object kept as an ad hoc attribute of a container (default hash and equality; carries a list)."""
+
+    def __init__(self, items):
+        self.items = items
+
+    def __repr__(self):
+        return f'Holder({self.items!r})'
 
 
 def dec_operand(o):
